@@ -190,7 +190,8 @@ Definition alloc_key (s : state) : state * nat :=
    look at the period at all on the pinned tree (bugF4). *)
 Definition sched_request (s : state) (origin : N) (d : dl) (mkop : option nat -> op) (keyed : bool)
            (period : option Z) (check_period : bool) : state * N * option nat :=
-  let bad_period := match period with Some p => Z.eqb p 0 | None => false end in
+  (* Duration is unsigned: on the represented domain p <= 0 is p = 0 (is_zero) *)
+  let bad_period := match period with Some p => Z.leb p 0 | None => false end in
   if check_period && bad_period then (s, 2%N, None)
   else
     let t := dl_time d (now s) in
